@@ -135,7 +135,9 @@ Definition run_cmd (m : ovf_mode) (cmd : tok) (args : list tok) : list byte :=
   else if tok_is cmd "TSFMT" then run_tsfmt args
   else if tok_is cmd "NOW" then run_now m args
   else if tok_is cmd "TICK" then run_tick m args
+  else if tok_is cmd "REALNOW" then S_ "OK"     (* the real clock: the implementation's answers are bracketed by the harness' own clock readings *)
   else if tok_is cmd "SCHED" then run_sched args
+  else if tok_is cmd "SCHEDX" then run_sched args     (* implementation side: the calls go through other entry points that generate fresh timestamps *)
   else if tok_is cmd "SCHEDP" then run_sched_pinned args
   else if tok_is cmd "VALIDATE" then run_validate args
   else if tok_is cmd "OPS" then run_ops m args
@@ -145,6 +147,7 @@ Definition run_cmd (m : ovf_mode) (cmd : tok) (args : list tok) : list byte :=
   else if tok_is cmd "CRCV" then run_crcv args
   else if tok_is cmd "RT" then run_rt args
   else if tok_is cmd "RTV" then run_rtv args
+  else if tok_is cmd "RTBIG" then S_ "NA"       (* sizes beyond what the model evaluates in reasonable time: implementation + reference encoder only *)
   else if tok_is cmd "SPEC" then run_spec args
   else if tok_is cmd "DECRT" then run_decrt args
   else if tok_is cmd "CRC16" then run_crc16 args
